@@ -571,7 +571,11 @@ func (x *e1) execOp(sd *sideRec, op Op) {
 			m := &Msg{}
 			var err error
 			recvStart := x.d.Step
-			termAtStart := x.terminated(st)
+			// "later" for a receive: the stream is terminated AND a receive of this
+			// side has already reported an error (Stream.terminate publishes the
+			// terminated flag before it closes the receive queue, so the flag alone
+			// can be observed in the middle of the termination)
+			termAtStart := x.terminated(st) && sd.FirstErr != nil
 			sd.InCall++
 			x.call(fmt.Sprintf("%s.MsgRecv rpc%d", who, k), func() { err = st.MsgRecv(m, x.enc) })
 			if termAtStart && r.Cancelled && sd.client && err == nil {
